@@ -367,6 +367,104 @@ class RunStateBinding(Binding):
         return None
 
 
+class OrderPolicy:
+    """Order in which CommandManager.execute_commands steps the commands due in one tick, *extracted* from its source:
+    how new requests enter self.cmd_executing (insert(0, r) = newest first, append(r) = oldest first) and any re-ordering
+    applied before the stepping loop (a `sort(key=lambda r: [not] r.name [not] in <module constant>)`).
+    Anything else that reorders the list is not understood -> AnchorError (fail closed)."""
+
+    CM = "openpectus.engine.command_manager"
+
+    def __init__(self, prog):
+        cm = prog.cls(f"{self.CM}:CommandManager")
+        xc = cm.find_method("execute_commands")
+        if xc is None:
+            raise AnchorError("CommandManager.execute_commands missing")
+        self.newest_first = None
+        self.key = None          # name -> sortable
+        self.key_text = None
+        self.reverse = False
+        for fn in cm.methods.values():
+            for n in walk_no_nested(fn.node):
+                if not (isinstance(n, ast.Call) and isinstance(n.func, ast.Attribute) and isinstance(n.func.value, ast.Attribute)
+                        and n.func.value.attr == "cmd_executing"):
+                    if isinstance(n, (ast.Assign, ast.AugAssign)):
+                        tg = n.targets if isinstance(n, ast.Assign) else [n.target]
+                        for t in tg:
+                            if isinstance(t, ast.Attribute) and t.attr == "cmd_executing" and fn.name != "__init__":
+                                raise AnchorError(f"CommandManager.{fn.name}: cmd_executing re-bound ({norm(n)[:60]}): "
+                                                  "execution order policy not understood")
+                            if isinstance(t, ast.Subscript) and isinstance(t.value, ast.Attribute) and t.value.attr == "cmd_executing":
+                                raise AnchorError(f"CommandManager.{fn.name}: cmd_executing written by index/slice: execution "
+                                                  "order policy not understood")
+                    continue
+                m = n.func.attr
+                if m in ("remove", "copy", "index", "count", "clear"):
+                    continue
+                if m == "append" and fn.name == "__init__":
+                    continue
+                if fn is not xc:
+                    raise AnchorError(f"CommandManager.{fn.name}: cmd_executing.{m}(...) outside execute_commands: execution "
+                                      "order policy not understood")
+                if m == "insert" and n.args and isinstance(n.args[0], ast.Constant) and n.args[0].value == 0:
+                    self.newest_first = True
+                elif m == "append":
+                    self.newest_first = False
+                elif m == "sort":
+                    self._parse_sort(n, prog)
+                else:
+                    raise AnchorError(f"CommandManager.execute_commands: cmd_executing.{m}(...): execution order policy not understood")
+        if self.newest_first is None:
+            raise AnchorError("CommandManager.execute_commands: how new requests enter cmd_executing was not found")
+        # the stepping loop iterates the list in order
+        cur = cm.find_method("currently_executing")
+        loops = [n for n in walk_no_nested(xc.node) if isinstance(n, ast.For) and norm(n.iter) in ("self.currently_executing", "self.cmd_executing")]
+        if not loops or cur is None or not any(isinstance(n, ast.For) and norm(n.iter) == "self.cmd_executing" for n in walk_no_nested(cur.node)):
+            raise AnchorError("CommandManager.execute_commands: stepping loop over cmd_executing not found")
+
+    def _parse_sort(self, call: ast.Call, prog):
+        key = next((k.value for k in call.keywords if k.arg == "key"), None)
+        rev = next((k.value for k in call.keywords if k.arg == "reverse"), None)
+        if rev is not None:
+            if not isinstance(rev, ast.Constant):
+                raise AnchorError("cmd_executing.sort(reverse=<non-constant>) not understood")
+            self.reverse = bool(rev.value)
+        if not (isinstance(key, ast.Lambda) and len(key.args.args) == 1):
+            raise AnchorError(f"cmd_executing.sort key `{norm(key) if key is not None else None}` not understood")
+        par = key.args.args[0].arg
+        body, neg = key.body, False
+        if isinstance(body, ast.UnaryOp) and isinstance(body.op, ast.Not):
+            body, neg = body.operand, True
+        if not (isinstance(body, ast.Compare) and len(body.ops) == 1 and isinstance(body.ops[0], (ast.In, ast.NotIn))
+                and norm(body.left) == f"{par}.name" and isinstance(body.comparators[0], ast.Name)):
+            raise AnchorError(f"cmd_executing.sort key `{norm(key)}` not understood")
+        if isinstance(body.ops[0], ast.NotIn):
+            neg = not neg
+        const = prog.module(self.CM).constants.get(body.comparators[0].id) if hasattr(prog.module(self.CM), "constants") else None
+        if const is None:
+            const = prog.constant(f"{self.CM}:{body.comparators[0].id}")
+        if not isinstance(const, (ast.List, ast.Tuple, ast.Set)) or not all(isinstance(e, ast.Constant) for e in const.elts):
+            raise AnchorError(f"constant {body.comparators[0].id} is not a literal list of names")
+        names = {e.value for e in const.elts}
+        self.key = (lambda name, names=names, neg=neg: (name in names) != neg)
+        self.key_text = norm(key)
+
+    def precedes(self, inflight: str, new: str) -> bool:
+        """Does an already executing command `inflight` get its step before the newly queued request `new` in the tick
+        in which `new` starts?"""
+        if self.key is not None:
+            ka, kb = self.key(inflight), self.key(new)
+            if ka != kb:
+                return (ka < kb) != self.reverse
+        return not self.newest_first
+
+    def describe(self) -> str:
+        s = "new requests are inserted at the front (newest first)" if self.newest_first else "new requests are appended (oldest first)"
+        if self.key is not None:
+            s += f", then stably sorted by {self.key_text}" + (" descending" if self.reverse else "")
+        return s
+
+
 class Explorer:
     def __init__(self, ctx, faults: bool, track=GHOSTS):
         self.ctx = ctx
@@ -374,6 +472,8 @@ class Explorer:
         self.it = Interp(self.b, max_depth=6)
         self.b.interp = self.it
         self.b.cmd_hook = self._cmd_hook
+        self.policy = OrderPolicy(ctx.prog)
+        ctx.extra["command_order_policy"] = self.policy.describe()
         self.faults = faults
         self.engine = self.b.engine
         self.tick = self.engine.methods["tick"]
@@ -476,8 +576,14 @@ class Explorer:
                 d2 = dict(d)
                 d2["pend"] = None
                 b2 = mk(d2)
+                # commands already executing that the extracted order policy steps *before* the new request in this
+                # tick (none under newest-first; priority commands under a priority sort)
+                starts2 = [b2]
+                for n in CONTROL:
+                    if n != p and d2[f"if_{n}"] is not None and n not in d2["orph"] and self.policy.precedes(n, p):
+                        starts2 = [t for s2 in starts2 for t in (self.step_resume(s2, n) if sd(s2)[f"if_{n}"] is not None else [s2])]
                 # newest request first: a command scheduled by the method in this tick runs before the user's
-                firsts = [[b2]] + [self.step_any(b2, m) for m in method_cmds]
+                firsts = [starts2] + [self.step_any(s2, m) for s2 in starts2 for m in method_cmds]
                 for group in firsts:
                     for g in group:
                         if sd(g)[f"if_{p}"] is None:
